@@ -44,6 +44,11 @@ try:
     for f in ("patch.diff", "demo.py", "notes.md"):
         if os.path.exists(os.path.join(src, f)):
             shutil.copy(os.path.join(src, f), dst)
+    if meta.get("patch_applies"):
+        # store the patch re-based on the current /repo HEAD so that `git -C /repo apply` keeps working
+        rb = subprocess.run(["git", "-C", wt, "diff", "HEAD"], capture_output=True)     # bytes: the sources use CRLF
+        if rb.stdout.strip():
+            open(os.path.join(dst, "patch.diff"), "wb").write(rb.stdout)
     old = {}
     if os.path.exists(os.path.join(dst, "meta.json")):
         old = json.load(open(os.path.join(dst, "meta.json")))
